@@ -264,13 +264,13 @@ class Merge(Expr):
                 self.broadcast_side == "left"
                 and set(self.right._meta.index.names) == meta_index_names
             ):
-                divisions = self._bcast_right._divisions()
+                divisions = self._bcast_right.divisions
                 return divisions if use_right else (None,) * len(divisions)
             elif (
                 self.broadcast_side == "right"
                 and set(self.left._meta.index.names) == meta_index_names
             ):
-                divisions = self._bcast_left._divisions()
+                divisions = self._bcast_left.divisions
                 return divisions if use_left else (None,) * len(divisions)
             _npartitions = max(self.left.npartitions, self.right.npartitions)
 
@@ -727,12 +727,12 @@ class BroadcastJoin(Merge, PartitionsFiltered):
         # The index of the non-broadcast side only survives if the broadcast
         # side is joined through its index
         if self.broadcast_side == "left":
-            divisions = self.right._divisions()
+            divisions = self.right.divisions
             keep = self.left_index or _contains_index_name(
                 self.left._meta, self.left_on
             )
         else:
-            divisions = self.left._divisions()
+            divisions = self.left.divisions
             keep = self.right_index or _contains_index_name(
                 self.right._meta, self.right_on
             )
